@@ -110,3 +110,18 @@ M('c03-wsgi-resource-mw-unguarded', 'C03', None, 'falcon/app.py',
                         if resp.complete:
                             break
 """)
+
+M('c03-add-middleware-prepends', 'C03', 'R6', 'falcon/app.py',
+  "            self._unprepared_middleware += middleware  # type: ignore[arg-type]",
+  "            self._unprepared_middleware = middleware + self._unprepared_middleware  # type: ignore[arg-type]")
+M('c03-prepare-mode-constant', 'C03', 'R6', 'falcon/app.py',
+  """            self._unprepared_middleware,
+            independent_middleware=self._independent_middleware,
+        )""", """            self._unprepared_middleware,
+            independent_middleware=True,
+        )""")
+M('c03-asgi-prepare-drops-mode', 'C03', 'R6', 'falcon/asgi/app.py',
+  """            middleware=middleware,
+            independent_middleware=independent_middleware,
+            asgi=True,""", """            middleware=middleware,
+            asgi=True,""")
